@@ -52,6 +52,15 @@ Selected(i, t) ==
     ~HasMapInputs(fn) \/ \A k \in DOMAIN t :
         (ExtMask(fn)[k] /\ PHas(cfg.fixed, OutAxes(fn)[k])) => t[k] \in SeqToSet(PGet(cfg.fixed, OutAxes(fn)[k]))
 
+(* the elements of producer j that the invocation <<i, t>> consumes: through a mapped parameter only the positions that  *)
+(* its key selects (':' = all along that axis), through an unmapped parameter the whole array                            *)
+ConsumedOf(i, t, j) ==
+    LET fi == d.funcs[i]  fj == d.funcs[j]
+        ps == {p \in ParamsOf(d, i) : p \in OutputsOf(d, j) /\ ~IsBound(d, i, p) /\ p \notin DOMAIN InitEnv(inp)}
+        Match(u, key) == \A k \in DOMAIN u : (ExtMask(fj)[k] /\ k \in DOMAIN key) => (key[k] = ALL \/ key[k] = u[k])
+    IN  IF ps = {} THEN {}
+        ELSE IF ~HasMapInputs(fj) \/ \E p \in ps : ~IsMappedParam(fi, p) THEN {<<j, u>> : u \in CallPositions(j)}
+        ELSE {<<j, u>> : u \in {v \in CallPositions(j) : \E p \in ps : Match(v, KeyFor(fi, p, t))}}
 Elements(i)   == {<<i, t>> : t \in {u \in CallPositions(i) : Selected(i, u)}}
 AllElements   == UNION {Elements(i) : i \in cfg.F}
 Complete(i)   == Elements(i) \subseteq (done \cup stored)
@@ -74,7 +83,7 @@ Call(i, t, kwargs) ==
     /\ i \in cfg.F /\ <<i, t>> \in Elements(i)
     /\ <<i, t>> \notin called                            \* at most once per element and run
     /\ <<i, t>> \notin stored                            \* stored work is not redone
-    /\ \A j \in DepsIn(i) : Complete(j)                  \* never before everything it consumes is complete
+    /\ \A j \in DepsIn(i) : ConsumedOf(i, t, j) \subseteq (done \cup stored)   \* never before all values it consumes are complete
     /\ \A e \in failed : GenOf(d, e[1]) >= GenOf(d, i)   \* no function of a later generation after a failure
     /\ kwargs = ElemKwargs(d, den, i, t)                 \* sliced exactly as the MapSpec says
     /\ called' = called \cup {<<i, t>>}
@@ -101,6 +110,15 @@ Return(results, loaded) ==
     /\ cfg.fixed = <<>> =>
           \A o \in UNION {OutputsOf(d, i) : i \in cfg.F} : PHas(results, o) /\ PGet(results, o) = den[o]
     /\ \A k \in DOMAIN loaded : loaded[k][2] = den[loaded[k][1]]      \* what load_outputs reads back afterwards
+    /\ stored' = stored \cup done
+    /\ Finish
+
+(* learners (create_learners): the same elements are executed one by one by SequenceLearners, in any order that respects  *)
+(* what each element consumes; when every learner is done everything is stored; nothing is returned                        *)
+LearnersDone ==
+    /\ phase = "running" /\ failed = {}
+    /\ \A i \in cfg.F : Complete(i)
+    /\ called = done
     /\ stored' = stored \cup done
     /\ Finish
 
